@@ -118,6 +118,9 @@ func vfDecsOf(n dst.Node, point string) dst.Decorations {
 func vfPerType_C04(typ string) {
 	info := vfNodeInfo[typ]
 	g := &vfGen{prefix: "n", depth: 1, listLen: 1, maxDecs: 2, symFlags: false}
+	if len(info.Optional) > 0 && vfChoice("optionalNil", 2) == 1 {
+		g.nilField = "*" // decorations stay attached to a point even when the optional child next to it is absent
+	}
 	pi := vfChoice("point", len(info.Points))
 	point := info.Points[pi]
 	g.decPoint = typ + "." + point
@@ -167,7 +170,10 @@ func vfPerType_C04(typ string) {
 			}
 		}
 		for i := idx + 1; i < len(frags); i++ {
-			if pos, _, ok := vfFragExtent(frags[i]); ok {
+			// only tokens whose position comes from go/ast bound the gap from the right: the fragmenter's
+			// guess for a position-less token (e.g. the ']' of a slice type) is the end of the previous
+			// token, which lies in front of a comment standing between them
+			if pos, _, ok := vfFragExtent(frags[i]); ok && vfMeasurable(frags[i]) {
 				hi = pos
 				break
 			}
@@ -402,6 +408,24 @@ func (v vfAstLog) Visit(n ast.Node) ast.Visitor {
 func vfPerType_C13(typ string) {
 	info := vfNodeInfo[typ]
 	g := &vfGen{prefix: "n", depth: 1, listLen: 2}
+	// which kind of leaf stands for statement / expression children (e.g. a label in front of a closing
+	// brace carries an implicit empty statement; an array length can be an Ellipsis without element)
+	nv := 1
+	if len(info.StmtFields) > 0 {
+		nv += 3
+	}
+	if len(info.ExprFields) > 0 {
+		nv += 2
+	}
+	if v := vfChoice("leafvariant", nv); v > 0 {
+		if len(info.StmtFields) > 0 && v <= 3 {
+			g.stmtLeaf = v
+		} else if len(info.StmtFields) > 0 {
+			g.exprLeaf = v - 3
+		} else {
+			g.exprLeaf = v
+		}
+	}
 	k := vfChoice("nil", len(info.Optional)+2)
 	if k == len(info.Optional) {
 		g.nilField = "*"
@@ -527,7 +551,18 @@ func vfPerType_C04Acc(typ string) {
 func VerifC11Objects() {
 	var n dst.Node
 	var declOf func(an ast.Node) (*ast.Ident, ast.Node)
-	switch vfChoice("decl", 6) {
+	rangeKey := false
+	switch vfChoice("decl", 7) {
+	case 6:
+		// for k := range x {}: the parser gives k an object whose Decl is a synthetic AssignStmt that is
+		// not part of the tree and whose Lhs[0] is the very same identifier
+		rangeKey = true
+		n = &dst.RangeStmt{Key: &dst.Ident{Name: "k"}, Tok: token.DEFINE, X: &dst.Ident{Name: "x"}, Body: &dst.BlockStmt{}}
+		declOf = func(an ast.Node) (*ast.Ident, ast.Node) {
+			rs := an.(*ast.RangeStmt)
+			key := rs.Key.(*ast.Ident)
+			return key, &ast.AssignStmt{Lhs: []ast.Expr{key}, Tok: token.DEFINE, Rhs: []ast.Expr{&ast.UnaryExpr{Op: token.RANGE, X: rs.X}}}
+		}
 	case 0:
 		n = &dst.LabeledStmt{Label: &dst.Ident{Name: "L"}, Stmt: &dst.ExprStmt{X: &dst.Ident{Name: "x"}}}
 		declOf = func(an ast.Node) (*ast.Ident, ast.Node) { return an.(*ast.LabeledStmt).Label, an }
@@ -582,7 +617,20 @@ func VerifC11Objects() {
 	out, err := fd.decorateNode(nil, "", "", "", aw)
 	vfAssert(err == nil, "decorate-ok")
 	vfReach("decorated")
-	vfMapLaws(aw, out, fd.Dst.Nodes, fd.Ast.Nodes, "decorator-maps-with-objects")
+	if rangeKey {
+		// the synthetic declaration is outside the tree: the tree-walk laws cover the tree, the whole-map
+		// law covers the rest
+		for d, a := range fd.Ast.Nodes {
+			vfAssert(fd.Dst.Nodes[a] == d, "decorator-maps-with-objects/whole-map-inverse")
+		}
+		_, dorder := vfDstParents(out)
+		for _, d := range dorder {
+			a, ok := fd.Ast.Nodes[d]
+			vfAssert(ok && fd.Dst.Nodes[a] == d, "decorator-maps-with-objects/maps-inverse-dst")
+		}
+	} else {
+		vfMapLaws(aw, out, fd.Dst.Nodes, fd.Ast.Nodes, "decorator-maps-with-objects")
+	}
 	do := fd.Dst.Objects[obj]
 	vfAssert(do != nil, "object-decorated")
 	if do != nil {
@@ -752,4 +800,44 @@ func VerifC04Qualified() {
 		vfAssert(c.Slash >= lo && c.Slash+token.Pos(len(c.Text)) <= hi, "comment-in-the-gap-of-its-point")
 	}
 	vfCheckEndIndent(r, point, rendered)
+}
+
+
+// VerifC04FileReuse: one FileRestorer value restores two files; the first file's comments (texts and
+// positions) are still the first file's afterwards.
+func VerifC04FileReuse() {
+	mk := func(tag string, n int) *dst.File {
+		f := &dst.File{Name: &dst.Ident{Name: "p"}}
+		for i := 0; i < n; i++ {
+			gd := &dst.GenDecl{Tok: token.VAR, Specs: []dst.Spec{&dst.ValueSpec{Names: []*dst.Ident{{Name: "v" + tag}}, Type: &dst.Ident{Name: "int"}}}}
+			gd.Decs.Start.Append(vfOpaque(tag+"c", "//"+tag))
+			gd.Decs.Before = dst.EmptyLine
+			f.Decls = append(f.Decls, gd)
+		}
+		return f
+	}
+	fa, fb := mk("a", 1+vfChoice("na", 2)), mk("b", 1+vfChoice("nb", 3))
+	fr := NewRestorer().FileRestorer()
+	a, _ := fr.RestoreFile(fa)
+	var texts []string
+	var poss []token.Pos
+	for _, cg := range a.Comments {
+		for _, c := range cg.List {
+			texts = append(texts, c.Text)
+			poss = append(poss, c.Slash)
+		}
+	}
+	vfAssert(len(texts) == len(fa.Decls), "first-file-comments-rendered")
+	_, _ = fr.RestoreFile(fb)
+	k := 0
+	for _, cg := range a.Comments {
+		for _, c := range cg.List {
+			vfAssert(k < len(texts), "first-file-comments-unchanged-by-second-restore")
+			if k < len(texts) {
+				vfAssert(c.Text == texts[k] && c.Slash == poss[k], "first-file-comments-unchanged-by-second-restore")
+			}
+			k++
+		}
+	}
+	vfAssert(k == len(texts), "first-file-comments-unchanged-by-second-restore")
 }
